@@ -197,6 +197,10 @@ fn gen_pattern(u: &mut Unstructured, kind: Kind, v: Inst, off: i32) -> arbitrary
     Ok(toks)
 }
 
+pub fn gen_pattern_pub(u: &mut Unstructured, kind: Kind, v: Inst, off: i32) -> arbitrary::Result<Vec<Tok>> {
+    gen_pattern(u, kind, v, off)
+}
+
 fn present(toks: &[Tok], sym: char) -> Option<usize> {
     toks.iter().find_map(|t| match t {
         Tok::Field { sym: s, width } if *s == sym => Some(*width),
